@@ -1773,3 +1773,141 @@ def _stream_for_each(I, a, d):
 @T.trait("StreamExt", "count")
 def _stream_count(I, a, d):
     return StreamDrain("count", a[0])
+
+
+# ---------------------------------------------------------------------------
+# round-4 additions: Duration constructors, thread::sleep, hex::decode_to_slice, DirEntry accessors,
+# HashSet::remove, SystemTime ordering
+
+@T.path("std::time::Duration::from_millis", "core::time::Duration::from_millis")
+def _dur_from_millis(I, a, d):
+    return _fs.DurationObj(a[0])
+
+
+@T.path("std::time::Duration::from_secs", "core::time::Duration::from_secs")
+def _dur_from_secs(I, a, d):
+    v = a[0]
+    return _fs.DurationObj(v * 1000 if not is_sym(v) else z3.simplify(v * 1000))
+
+
+@T.path("std::time::Duration::from_micros", "core::time::Duration::from_micros", "std::time::Duration::from_nanos", "core::time::Duration::from_nanos")
+def _dur_from_small(I, a, d):
+    return _fs.DurationObj(0)
+
+
+@T.path("std::thread::sleep", "std::thread::yield_now")
+def _thread_sleep(I, a, d):
+    I.w.tick(200)       # waiting costs steps: a retry loop that never ends still runs into the step budget
+    return UNIT
+
+
+@T.path("hex::decode_to_slice", "decode_to_slice")
+def _hex_decode_to_slice(I, a, d):
+    """hex::decode_to_slice(data, &mut out): Err on odd length, a non-hex digit or a length mismatch."""
+    src = as_sbytes(a[0])
+    dst = peel(a[1])
+    err = lambda name: ERR(Adt("FromHexError", 0, name, []))     # noqa: E731
+    src = sb.resolve_symbytes(src, I.w) if hasattr(sb, "resolve_symbytes") else src
+    if not src.is_concrete():
+        # digest atoms are lower-case hex by construction: decode them back to the digest
+        if len(src.segs) == 1 and isinstance(src.segs[0], sb.Atom) and src.segs[0].kind == "hex" and src.segs[0].a is None:
+            dg = src.segs[0].payload
+            out = SBytes.of(dg.raw) if dg.raw is not None else SBytes((sb.Atom("rawdigest", dg),))
+            _store_bytes(I, dst, out)
+            return OK(UNIT)
+        raise Inconclusive("hex::decode_to_slice over symbolic text")
+    text = src.concrete()
+    want = _dst_len(dst)
+    if len(text) % 2 == 1:
+        return err("OddLength")
+    if want is not None and len(text) // 2 != want:
+        return err("InvalidStringLength")
+    try:
+        raw = bytes.fromhex(text.decode("ascii"))
+    except (ValueError, UnicodeDecodeError):
+        return err("InvalidHexCharacter")
+    if any(c in b" \t\n" for c in text):
+        return err("InvalidHexCharacter")
+    _store_bytes(I, dst, SBytes.of(raw))
+    return OK(UNIT)
+
+
+def _dst_len(dst):
+    if isinstance(dst, MutBytesRef):
+        n = dst.end - dst.start if not (is_sym(dst.end) or is_sym(dst.start)) else None
+        return n
+    if isinstance(dst, BufObj):
+        n = dst.sb.length()
+        return None if is_sym(n) else n
+    return None
+
+
+def _store_bytes(I, dst, data):
+    if isinstance(dst, MutBytesRef):
+        _fs.write_window(I, dst.buf, dst.start, data)
+    elif isinstance(dst, BufObj):
+        dst.sb = data
+    else:
+        raise Inconclusive("byte destination %r" % (dst,))
+
+
+@T.path("std::fs::DirEntry::metadata")
+def _direntry_metadata(I, a, d):
+    e = peel(a[0])
+    return _fs.wrap(I, lambda: _fs.op_stat(I, e.path, False))
+
+
+@T.path("std::fs::DirEntry::file_type")
+def _direntry_file_type(I, a, d):
+    e = peel(a[0])
+    return OK(_fs.FileTypeObj(e.ino.kind))
+
+
+@T.path("std::fs::DirEntry::file_name")
+def _direntry_file_name(I, a, d):
+    e = peel(a[0])
+    _abs, comps = path_components(e.path)
+    return BufObj("OsString", comps[-1] if comps else SBytes())
+
+
+@T.path("std::collections::HashSet::remove")
+def _hashset_remove(I, a, d):
+    hs = peel(a[0])
+    for k, x in enumerate(hs.items):
+        if truthy(I, I.call_trait_method("PartialEq", "eq", [Ref(ValLoc(x)), a[1]]), "hashset-remove"):
+            del hs.items[k]
+            if k < len(hs.hashes):
+                del hs.hashes[k]
+            return True
+    return False
+
+
+@T.path("std::collections::HashSet::iter", "std::collections::HashSet::into_iter")
+def _hashset_iter(I, a, d):
+    hs = peel(a[0])
+    items = list(hs.items)
+    if len(items) > 1 and I.w.choose(2, "hashset-order") == 1:
+        items.reverse()
+    if d["segs"][-1] == "iter":
+        return RIter.from_list([Ref(ValLoc(x)) for x in items])
+    return RIter.from_list(items)
+
+
+def _st_millis(v):
+    v = peel(v)
+    m = getattr(v, "millis", None)
+    if m is None:
+        raise Inconclusive("time comparison of %r" % (v,))
+    return m
+
+
+def _st_cmp(I, a, op):
+    x, y = _st_millis(a[0]), _st_millis(a[1])
+    if is_sym(x) or is_sym(y):
+        bx, by = sb._bv(x), sb._bv(y)
+        return {"lt": z3.ULT, "le": z3.ULE, "gt": z3.UGT, "ge": z3.UGE}[op](bx, by)
+    return {"lt": x < y, "le": x <= y, "gt": x > y, "ge": x >= y}[op]
+
+
+for _op in ("lt", "le", "gt", "ge"):
+    T.trait("PartialOrd", _op, r"SystemTime$|Duration$")((lambda o: (lambda I, a, d: _st_cmp(I, a, o)))(_op))
